@@ -415,3 +415,43 @@ func HarnessC02_Rescale() {
 	checkMessages(s.out, nil, s.done)
 	vReach("rescale")
 }
+
+// HarnessC02_Follow: header compression after a message that spanned several chunks. On one
+// chunk stream a fmt-0 message of 1-3 chunks is followed by 1-2 messages that start with a
+// fmt 1, 2 or 3 header (fmt 3: same delta as before, which after a fmt-0 header is its
+// timestamp; RTMP 1.0 5.3.1.2.4), each again split into chunks. Timestamps and deltas are
+// 16-bit values (large and extended ones are the subject of C02_Headers).
+func HarnessC02_Follow() {
+	s := &refSender{chunkSize: 128}
+	ctl := &refCS{csid: 2, form: 1}
+	s.setChunkSize(ctl, uint32(1+vChoice(3)))
+	c := newSlot(nil)
+	ts := vU32()
+	vAssume(ts < 0x10000)
+	mt := vU8()
+	vAssume(notControl(mt))
+	p1 := vBytes(1 + vChoice(3))
+	s.first(c, 0, ts, len(p1), mt, vU32(), p1)
+	for c.cur != nil {
+		s.cont(c)
+	}
+	nmore := 1 + vChoice(2)
+	for k := 0; k < nmore; k++ {
+		f := uint8(1 + vChoice(3))
+		d := vU32()
+		vAssume(d < 0x10000)
+		n, mt2 := c.length, c.mt
+		if f == 1 {
+			n = 1 + vChoice(3)
+			mt2 = vU8()
+			vAssume(notControl(mt2))
+		}
+		pl := vBytes(n)
+		s.first(c, f, d, n, mt2, 0, pl)
+		for c.cur != nil {
+			s.cont(c)
+		}
+	}
+	checkMessages(s.out, nil, s.done)
+	vReach("follow")
+}
